@@ -207,7 +207,16 @@ impl<F: Flavour> World<F> {
 
     /// Compares the real graph with the model, reading it from both endpoints.
     pub fn compare_with(&self, m: &Model) -> Result<(), String> {
+        self.compare_with_skipping(m, &[])
+    }
+
+    /// as `compare_with`, leaving out the nodes in `skip` (nodes that currently carry an edge the
+    /// model does not describe)
+    pub fn compare_with_skipping(&self, m: &Model, skip: &[usize]) -> Result<(), String> {
         for u in 0..self.n() {
+            if skip.contains(&u) {
+                continue;
+            }
             let (out, inn) = self.lists(u);
             if F::DIRECTED {
                 if out != m.out(u) {
